@@ -33,14 +33,21 @@ type point struct {
 
 // Exec is one execution under one schedule.
 type Exec struct {
-	prefix    []int
-	threads   []*thread
-	running   *thread
-	yield     chan struct{}
-	points    []point
-	Deadlock  bool
-	Blocked   []string // what each blocked thread waits for, on deadlock
-	maxSteps  int
+	prefix   []int
+	threads  []*thread
+	running  *thread
+	yield    chan struct{}
+	points   []point
+	Deadlock bool
+	Blocked  []string // what each blocked thread waits for, on deadlock
+	maxSteps int
+	// stride: plain scheduling points yield only when the running count of points is a multiple
+	// of stride (0: never, used for the preemption-free bound where only thread ends matter);
+	// blocking operations and Go always yield. counter counts every point that was passed.
+	stride    int
+	counter   int64
+	siteSeen  map[[2]int]int
+	siteFirst int
 	Truncated bool
 	panicVal  interface{}
 	active    bool
@@ -57,9 +64,81 @@ func Point() {
 	if e == nil || !e.active {
 		return
 	}
+	c := e.counter
+	e.counter++
+	if e.stride <= 0 || c%int64(e.stride) != 0 {
+		return
+	}
 	t := e.running
 	e.yield <- struct{}{}
 	<-t.resume
+}
+
+// PointAt is Point with the identity of its static site: besides the stride rule, the first
+// siteFirst occurrences of every static site in every thread yield (so that each statement
+// boundary of the instrumented code is a preemption point at least once per thread, however hot
+// the loop it sits in).
+func PointAt(site int) {
+	e := cur.Load()
+	if e == nil || !e.active {
+		return
+	}
+	c := e.counter
+	e.counter++
+	t := e.running
+	k := [2]int{t.id, site}
+	n := e.siteSeen[k]
+	if n == 0 {
+		e.siteSeen[k] = 1
+	}
+	if e.stride <= 0 {
+		return
+	}
+	first := n == 0 && e.siteFirst > 0 && site%e.siteFirst == 0
+	if !first && c%int64(e.stride) != 0 {
+		return
+	}
+	e.yield <- struct{}{}
+	<-t.resume
+}
+
+// SitesSeen returns the number of distinct (thread, static site) pairs the execution passed.
+func (e *Exec) SitesSeen() int { return len(e.siteSeen) }
+
+// PointAutoAt is PointAt for automatically placed points (see SetAutoPoints).
+func PointAutoAt(site int) {
+	if autoPoints.Load() {
+		PointAt(site)
+	}
+}
+
+// pointAlways yields regardless of the stride (synchronisation operations).
+func pointAlways() {
+	e := cur.Load()
+	if e == nil || !e.active {
+		return
+	}
+	e.counter++
+	t := e.running
+	e.yield <- struct{}{}
+	<-t.resume
+}
+
+// PointsPassed returns how many scheduling points the execution passed (yielding or not).
+func (e *Exec) PointsPassed() int { return int(e.counter) }
+
+// autoPoints enables the scheduling points that the instrumenter places automatically in every
+// function mentioning a package-level variable (second exploration pass of a scenario).
+var autoPoints atomic.Bool
+
+// SetAutoPoints switches the automatically placed points on or off.
+func SetAutoPoints(on bool) { autoPoints.Store(on) }
+
+// PointAuto is a scheduling point of the automatic kind (see SetAutoPoints).
+func PointAuto() {
+	if autoPoints.Load() {
+		Point()
+	}
 }
 
 // block parks the running thread until cond() holds (evaluated by the scheduler).
@@ -79,7 +158,7 @@ func Go(f func()) {
 		return
 	}
 	e.spawn(f)
-	Point()
+	pointAlways()
 }
 
 func (e *Exec) spawn(f func()) {
@@ -215,6 +294,7 @@ type Stats struct {
 	Executions   int
 	ByPreemption map[int]int
 	MaxPoints    int
+	MaxSites     int
 	Points       int64
 	Capped       bool
 	Bound        int
@@ -225,10 +305,13 @@ type Options struct {
 	Bound    int // maximum number of preemptions
 	MaxExecs int // safety cap on executions (0 = none); hitting it sets Stats.Capped
 	MaxSteps int // horizon per execution (0 = none)
-	// Stride > 1 thins the *preemption* points to every Stride-th scheduling step (a declared
+	// Stride > 1 makes plain scheduling points yield only at every Stride-th point passed (a declared
 	// sub-alphabet; with a prime stride the offsets rotate through loop bodies across iterations).
 	// Non-preemptive choices (the running thread finished or blocked) are always all explored.
 	Stride int
+	// SiteFirst m > 0: the first occurrence, in every thread, of every static point site whose
+	// number is a multiple of m yields regardless of the stride (m = 1: every site; 0 disables).
+	SiteFirst int
 }
 
 // Explore enumerates every schedule of body's threads with at most opt.Bound
@@ -242,13 +325,23 @@ func Explore(opt Options, body func(e *Exec)) Stats {
 			st.Capped = true
 			return
 		}
-		e := &Exec{prefix: prefix, yield: make(chan struct{}), maxSteps: opt.MaxSteps}
+		stride := opt.Stride
+		if stride < 1 {
+			stride = 1
+		}
+		if opt.Bound == 0 {
+			stride = 0 // no preemption will be explored: plain points need not yield
+		}
+		e := &Exec{prefix: prefix, yield: make(chan struct{}), maxSteps: opt.MaxSteps, stride: stride, siteSeen: map[[2]int]int{}, siteFirst: opt.SiteFirst}
 		body(e)
 		st.Executions++
 		st.ByPreemption[e.Preemptions()]++
-		st.Points += int64(len(e.points))
-		if len(e.points) > st.MaxPoints {
-			st.MaxPoints = len(e.points)
+		st.Points += e.counter
+		if int(e.counter) > st.MaxPoints {
+			st.MaxPoints = int(e.counter)
+		}
+		if len(e.siteSeen) > st.MaxSites {
+			st.MaxSites = len(e.siteSeen)
 		}
 		choices := e.Choices()
 		for i := len(prefix); i < len(e.points); i++ {
@@ -259,9 +352,6 @@ func Explore(opt Options, body func(e *Exec)) Stats {
 			cost := e.preemptionsBefore(i)
 			if p.runningStillEnabled {
 				cost++
-				if opt.Stride > 1 && i%opt.Stride != 0 {
-					continue
-				}
 			}
 			if cost > opt.Bound {
 				continue
@@ -278,9 +368,9 @@ func Explore(opt Options, body func(e *Exec)) Stats {
 	return st
 }
 
-// Replay runs body once under exactly the given choice sequence.
-func Replay(choices []int, body func(e *Exec)) *Exec {
-	e := &Exec{prefix: choices, yield: make(chan struct{})}
+// Replay runs body once under exactly the given choice sequence (recorded with the given stride).
+func Replay(choices []int, stride, siteFirst int, body func(e *Exec)) *Exec {
+	e := &Exec{prefix: choices, yield: make(chan struct{}), stride: stride, siteSeen: map[[2]int]int{}, siteFirst: siteFirst}
 	body(e)
 	return e
 }
@@ -308,7 +398,7 @@ func (m *Mutex) TryLock() bool {
 	if e == nil || !e.active {
 		return m.real.TryLock()
 	}
-	Point()
+	pointAlways()
 	if m.locked {
 		return false
 	}
@@ -326,7 +416,7 @@ func (m *Mutex) Unlock() {
 		panic("sched: unlock of unlocked Mutex")
 	}
 	m.locked = false
-	Point()
+	pointAlways()
 }
 
 // RWMutex replaces sync.RWMutex.
@@ -353,7 +443,7 @@ func (m *RWMutex) Unlock() {
 		return
 	}
 	m.writer = false
-	Point()
+	pointAlways()
 }
 
 func (m *RWMutex) RLock() {
@@ -373,7 +463,7 @@ func (m *RWMutex) RUnlock() {
 		return
 	}
 	m.readers--
-	Point()
+	pointAlways()
 }
 
 // Once replaces sync.Once.
@@ -392,7 +482,7 @@ func (o *Once) Do(f func()) {
 		o.real.Do(f)
 		return
 	}
-	Point()
+	pointAlways()
 	if o.done {
 		return
 	}
@@ -424,7 +514,7 @@ func (w *WaitGroup) Add(d int) {
 	if w.n < 0 {
 		panic("sched: negative WaitGroup counter")
 	}
-	Point()
+	pointAlways()
 }
 
 func (w *WaitGroup) Done() { w.Add(-1) }
